@@ -53,7 +53,7 @@ changes.  (The case in which this call also reissues is `reissue_once`.) -/
 theorem remember_identify_roundtrip (env : Env) (hH : env.H.WellSized)
     (cfgA : Cfg) (reqA : Req) (stA stA' : St) (u : UserId) (ma : Option Nat) (toks : List Tok) (cs : List SetCookie)
     (hclk : reqA.clock < 4294967296)
-    (hrem : remember env cfgA reqA stA u ma toks = (.ok cs, stA'))
+    (hrem : remember env cfgA reqA stA false u ma toks = (.ok cs, stA'))
     (cfgB : Cfg) (reqB : Req) (stB : St)
     (hsec : cfgB.secret = cfgA.secret) (hip : remoteAddr cfgB reqB = remoteAddr cfgA reqA)
     (hlive : isExpired cfgB reqB.now reqA.clock = false)
@@ -77,7 +77,7 @@ theorem remember_succeeds (env : Env) (hH : env.H.WellSized) (cfg : Cfg) (req : 
     (htl : ∀ t ∈ tl, validToken t = true ∧ (t.all (·.toNat < 128)) = true)
     (hip : IpOk env.U (remoteAddr cfg req)) (hclk : req.clock < 4294967296)
     (hfit : issuedLen env.H.size u tl ≤ 4093) :
-    ∃ c st', remember env cfg req st u ma (tl.map .str) = (.ok [c], st') := by
+    ∃ c st', remember env cfg req st false u ma (tl.map .str) = (.ok [c], st') := by
   obtain ⟨b, hb⟩ := hip req.clock
   have hd := @calcDigest_of_ipts env (remoteAddr cfg req) req.clock cfg.secret (encodeUserid u).2
     (List.intercalate [','] tl) (userIdTypePrefix ++ (encodeUserid u).1) b hb
@@ -136,7 +136,7 @@ theorem no_timeout_never_expires (cfg : Cfg) (now : Nat) (ts : Int) (h : cfg.tim
 /-- **accepted_until_expiry** (full): the issued ticket is accepted at every `now ≤ issue + timeout` (no reissue due) -/
 theorem accepted_until_expiry (env : Env) (hH : env.H.WellSized)
     (cfg : Cfg) (reqA : Req) (stA stA' : St) (u : UserId) (ma : Option Nat) (toks : List Tok) (cs : List SetCookie)
-    (hclk : reqA.clock < 4294967296) (hrem : remember env cfg reqA stA u ma toks = (.ok cs, stA'))
+    (hclk : reqA.clock < 4294967296) (hrem : remember env cfg reqA stA false u ma toks = (.ok cs, stA'))
     (reqB : Req) (stB : St) (t : Nat) (ht : cfg.timeout = some t)
     (hip : remoteAddr cfg reqB = remoteAddr cfg reqA) (hnow : reqB.now ≤ reqA.clock + t)
     (hnr : reissueDue cfg stB reqB.now reqA.clock = false) :
@@ -158,7 +158,7 @@ theorem accepted_until_expiry (env : Env) (hH : env.H.WellSized)
 /-- **expired_after_issue** (full): the same ticket at any `now > issue + timeout` yields nothing -/
 theorem expired_after_issue (env : Env) (hH : env.H.WellSized)
     (cfg : Cfg) (reqA : Req) (stA stA' : St) (u : UserId) (ma : Option Nat) (toks : List Tok) (c : SetCookie)
-    (hclk : reqA.clock < 4294967296) (hrem : remember env cfg reqA stA u ma toks = (.ok [c], stA'))
+    (hclk : reqA.clock < 4294967296) (hrem : remember env cfg reqA stA false u ma toks = (.ok [c], stA'))
     (reqB : Req) (stB : St) (t : Nat) (ht : cfg.timeout = some t) (h0 : t ≠ 0)
     (hip : remoteAddr cfg reqB = remoteAddr cfg reqA) (hck : reqB.cookie = some c.value)
     (hnow : reqA.clock + t < reqB.now) :
@@ -222,7 +222,7 @@ theorem identify_accepts_only_mac (env : Env) (cfg : Cfg) (req : Req) (st st' : 
           | ok userid =>
             simp only [hdl] at h
             split at h
-            · cases hrem : remember env cfg req st userid cfg.maxAge
+            · cases hrem : remember env cfg req st true userid cfg.maxAge
                   (((splitAll ',' p.tokens).filter (!·.isEmpty)).map .str) with
               | mk r s2 =>
                 cases r with
@@ -343,7 +343,7 @@ theorem identify_nothing_or_issued (env : Env) (hH : env.H.WellSized) (cfg : Cfg
       · exact ⟨_, _, h, Or.inr ⟨_, i, rfl, him, rfl, Or.inl rfl⟩⟩
       · exact ⟨_, _, h, Or.inr ⟨_, i, rfl, him, rfl, Or.inr rfl⟩⟩
 
-/-! ## 6. Reissue: once, strictly after `reissue_time`, revoked by forget / a later remember -/
+/-! ## 6. Reissue: once, strictly after `reissue_time`, revoked by forget / remember -/
 
 theorem reissueDue_iff (cfg : Cfg) (st : St) (now : Nat) (ts : Int) :
     reissueDue cfg st now ts = true ↔
@@ -380,7 +380,7 @@ attributes, that ticket is itself accepted by `parse_ticket`, and — unless rev
 attach exactly that one cookie. -/
 theorem reissue_once (env : Env) (hH : env.H.WellSized) (cfg : Cfg) (reqA : Req) (stA stA' : St) (u : UserId)
     (ma : Option Nat) (toks : List Tok) (c : SetCookie)
-    (hclk : reqA.clock < 4294967296) (hrem : remember env cfg reqA stA u ma toks = (.ok [c], stA'))
+    (hclk : reqA.clock < 4294967296) (hrem : remember env cfg reqA stA false u ma toks = (.ok [c], stA'))
     (reqB : Req) (stB : St) (hinv : StInv stB)
     (hip : remoteAddr cfg reqB = remoteAddr cfg reqA) (hck : reqB.cookie = some c.value)
     (hipok : IpOk env.U (remoteAddr cfg reqB)) (hclkB : reqB.clock < 4294967296)
@@ -427,56 +427,44 @@ theorem forget_revokes (env : Env) (cfg : Cfg) (req : Req) (a b : List Op) :
     ⟨hinv.1, hinv.2.1, hinv.2.2⟩).2 rfl
   simp [finish, this]
 
-/-- **remember_revokes_partial** (PARTIAL).  A `remember` whose tokens are valid, made AFTER the identify that
-scheduled the reissue (`_authtkt_reissued` already set), revokes it: the response carries no reissued ticket.
-Missing for the full statement ("unless the user was … re-remembered during the request"): a `remember` made BEFORE
-the first identify of the request does not revoke — see `remember_before_identify_not_revoked` (finding F-C09b). -/
-theorem remember_revokes_partial (env : Env) (cfg : Cfg) (req : Req) (a b : List Op) (u : UserId) (ma : Option Nat)
-    (toks : List Tok) (tl : List Text) (htoks : checkTokens toks = .ok tl)
-    (hre : (runOps env cfg req {} a).2.reissued = true) :
+/-- **remember_revokes** (full, all histories).  A `remember` whose tokens are valid, made ANYWHERE in the request —
+before or after the `identify` that schedules the reissue of the old ticket — cancels that reissue: whatever else runs
+in the request, the response callbacks attach no reissued ticket.  (The internal `remember` that `identify` itself
+performs for the reissue does not count: `reissue_once`.)  This is the statement's "unless the user was … re-remembered
+during the request" at full strength; it was false before /repo commit 70c9cb6 (F-C09b, fixed), when only a `remember`
+after the scheduling `identify` revoked. -/
+theorem remember_revokes (env : Env) (cfg : Cfg) (req : Req) (a b : List Op) (u : UserId) (ma : Option Nat)
+    (toks : List Tok) (tl : List Text) (htoks : checkTokens toks = .ok tl) :
     finish (runOps env cfg req {} (a ++ Op.remember u ma toks :: b)).2 = [] := by
   rw [runOps_append]
   simp only [runOps, step]
   have hinv := (runOps_inv env cfg req {} a stInv_init).1
   have hs := step_inv env cfg req (runOps env cfg req {} a).2 (.remember u ma toks) hinv
   simp only [step] at hs
-  have hrev : (remember env cfg req (runOps env cfg req {} a).2 u ma toks).2.revoked = true := by
+  have hrev : (remember env cfg req (runOps env cfg req {} a).2 false u ma toks).2.revoked = true := by
     unfold remember
-    simp only [htoks, hre, if_true]
+    simp only [htoks]
     cases cookieValue env cfg.secret (encodeUserid u).2 (remoteAddr cfg req) tl (userIdTypePrefix ++ (encodeUserid u).1) req.clock <;> rfl
   have := (runOps_inv env cfg req _ b hs.1).2 hrev
   simp [finish, this]
 
-/-- **remember_before_identify_not_revoked** (the negation of the full statement, for ALL parameters — F-C09b).
-In a request that carries an issued ticket due for reissue, `remember(new user)` followed by `identify` leaves the
-reissue of the OLD user's ticket on the response: the callbacks attach a fresh ticket for `u` although the user was
-re-remembered during the request. -/
-theorem remember_before_identify_not_revoked (env : Env) (hH : env.H.WellSized) (cfg : Cfg) (reqA : Req) (stA stA' : St)
-    (u : UserId) (ma : Option Nat) (toks : List Tok) (c : SetCookie)
-    (hclk : reqA.clock < 4294967296) (hrem : remember env cfg reqA stA u ma toks = (.ok [c], stA'))
-    (reqB : Req) (hip : remoteAddr cfg reqB = remoteAddr cfg reqA) (hck : reqB.cookie = some c.value)
-    (hipok : IpOk env.U (remoteAddr cfg reqB)) (hclkB : reqB.clock < 4294967296)
-    (hlive : isExpired cfg reqB.now reqA.clock = false)
-    (hdue : reissueDue cfg {} reqB.now reqA.clock = true)
-    (u2 : UserId) (ma2 : Option Nat) (toks2 : List Tok) :
-    ∃ tl d2, finish (runOps env cfg reqB {} [Op.remember u2 ma2 toks2, Op.identify]).2 =
-      [ticketCookie cfg reqB (issuedValue d2 u tl reqB.clock) cfg.maxAge] := by
-  have hs := remember_state env cfg reqB {} u2 ma2 toks2
-  simp only at hs
-  -- the state after remember(new) is still the initial one: nothing was scheduled yet, so nothing is revoked
-  have hst : (remember env cfg reqB {} u2 ma2 toks2).2 = {} := by
-    unfold remember
+/-- the regression case of F-C09b: `remember(new user)` followed by the first `identify` of a request whose ticket is
+due for reissue leaves NO reissued ticket for the old user on the response -/
+theorem remember_before_identify_revokes (env : Env) (cfg : Cfg) (req : Req) (u2 : UserId) (ma2 : Option Nat)
+    (toks2 : List Tok) (tl2 : List Text) (htoks : checkTokens toks2 = .ok tl2) :
+    finish (runOps env cfg req {} [Op.remember u2 ma2 toks2, Op.identify]).2 = [] :=
+  remember_revokes env cfg req [] [Op.identify] u2 ma2 toks2 tl2 htoks
+
+/-- the internal `remember` of a reissue does not revoke: whatever the state, it leaves all bookkeeping untouched -/
+theorem internal_remember_keeps_state (env : Env) (cfg : Cfg) (req : Req) (st : St) (u : UserId) (ma : Option Nat)
+    (toks : List Tok) : (remember env cfg req st true u ma toks).2 = st := by
+  unfold remember
+  simp only
+  cases checkTokens toks with
+  | error e => rfl
+  | ok tl =>
     simp only
-    cases checkTokens toks2 with
-    | error e => rfl
-    | ok tl2 =>
-      simp only
-      cases cookieValue env cfg.secret (encodeUserid u2).2 (remoteAddr cfg reqB) tl2 (userIdTypePrefix ++ (encodeUserid u2).1) reqB.clock <;> rfl
-  obtain ⟨tl, d2, st', _, hid, _, hrv, _, hfin, _⟩ := reissue_once env hH cfg reqA stA stA' u ma toks c hclk hrem reqB {}
-    stInv_init hip hck hipok hclkB hlive hdue
-  refine ⟨tl, d2, ?_⟩
-  simp only [runOps, step, hst, hid]
-  exact hfin rfl
+    cases cookieValue env cfg.secret (encodeUserid u).2 (remoteAddr cfg req) tl (userIdTypePrefix ++ (encodeUserid u).1) req.clock <;> rfl
 
 /-! ## 6b. History independence across requests (remark)
 
@@ -546,7 +534,7 @@ theorem cookie_domains_spec (cfg : Cfg) (cur : Text) :
 /-- **issued_cookie_attributes** (full): a successful `remember` returns exactly one cookie carrying the configured
 name, path, domain variant, `max_age` (argument, else the helper's), Secure, HttpOnly and SameSite -/
 theorem issued_cookie_attributes (env : Env) (cfg : Cfg) (req : Req) (st st' : St) (u : UserId) (ma : Option Nat)
-    (toks : List Tok) (cs : List SetCookie) (h : remember env cfg req st u ma toks = (.ok cs, st')) :
+    (toks : List Tok) (cs : List SetCookie) (h : remember env cfg req st false u ma toks = (.ok cs, st')) :
     ∃ c, cs = [c] ∧ c.name = cfg.cookieName ∧ c.path = nonEmpty (some cfg.path) ∧
       c.domain = nonEmpty (cookieDomain cfg req.domain) ∧
       (∀ m, ma = some m → c.maxAge = some m) ∧ (ma = none → c.maxAge = cfg.maxAge) ∧
@@ -577,7 +565,7 @@ example : IpOk toyU [':', ':', '1'] := ipOk_v6 toyU _ (by decide) (by decide)
 example : validToken ['a', 'd', 'm', 'i', 'n'] = true ∧ validToken ['a', 'b', 'c', '\n'] = true ∧
     validToken ['1', 'a'] = false ∧ validToken [] = false ∧ validToken ['a', '\n', '\n'] = false := by decide
 /-- the hypotheses of `remember_succeeds` (hence `hrem` of the round-trip theorems) hold at a concrete point -/
-example : ∃ c st', remember toyEnv { secret := ['s'] } ⟨none, [], [], 5, 5⟩ {} (.bytes [1, 2]) none [.str ['a']] = (.ok [c], st') :=
+example : ∃ c st', remember toyEnv { secret := ['s'] } ⟨none, [], [], 5, 5⟩ {} false (.bytes [1, 2]) none [.str ['a']] = (.ok [c], st') :=
   remember_succeeds toyEnv (fun _ => rfl) { secret := ['s'] } ⟨none, [], [], 5, 5⟩ {} (.bytes [1, 2]) none [['a']]
     (by decide) (ipOk_default toyU) (by decide) (by decide)
 example : isExpired { secret := [], timeout := some 10 } 16 (5 : Int) = true ∧
